@@ -98,11 +98,14 @@ def build_matrix(rot_x, rot_y, sx, sy):
 def mk_fits(rng, kind=None, pointing=None, scale=None, rot=None, crpix=None, shape=None):
     """FITSWCSCorrector on a TAN WCS in CD or PC form, or the HST SIP header of the test data"""
     from tweakwcs.correctors import FITSWCSCorrector
-    kind = kind or rng.choice(['cd', 'pc', 'sip', 'siplin'])
+    kind = kind or rng.choice(['cd', 'pc', 'sip', 'siplin', 'lut'])
     ra, dec = pointing or rand_pointing(rng)
     siplin = kind == 'siplin'
+    lut = kind == 'lut'
     if siplin:
         kind = 'cd'
+    if lut:
+        kind = rng.choice(['cd', 'pc'])
     if kind == 'sip':
         hdr = fits.Header.fromfile(os.path.join(DATA, rng.choice(['wfc3_uvis1.hdr', 'wfc3_uvis2.hdr'])))
         w = fitswcs.WCS(hdr)
@@ -146,6 +149,22 @@ def mk_fits(rng, kind=None, pointing=None, scale=None, rot=None, crpix=None, sha
         w.wcs.ctype = ['RA---TAN-SIP', 'DEC--TAN-SIP']
         w.sip = fitswcs.Sip(a, b, None, None, w.wcs.crpix)
         kind = 'siplin'
+    if lut:
+        # look-up-table distortions (CPDIS, sometimes DET2IM as well) and NO SIP: the ACS/WFPC2 kind of
+        # FITS WCS.  Smooth tables (bilinear interpolation stays invertible), not zero at CRPIX.
+        def table(amp):
+            gy, gx = np.mgrid[0:9, 0:9] / 8.0
+            ph = rng.uniform(0, 6.28)
+            t = amp * (rng.uniform(0.3, 1.0) + 0.5 * np.sin(2.2 * gx + ph) * np.cos(1.7 * gy - ph) + 0.3 * gx * gy)
+            return fitswcs.DistortionLookupTable(t.astype(np.float32), (1.0, 1.0), (1.0, 1.0),
+                                                 ((nx - 1) / 8.0, (ny - 1) / 8.0))
+        w.cpdis1 = table(rng.uniform(-0.6, 0.6))
+        w.cpdis2 = table(rng.uniform(-0.6, 0.6))
+        if rng.random() < 0.4:
+            w.det2im1 = table(rng.uniform(-0.2, 0.2))
+            if rng.random() < 0.5:
+                w.det2im2 = table(rng.uniform(-0.2, 0.2))
+        kind = 'lut'
     w.wcs.set()
     info = {'kind': kind, 'crval': [ra, dec], 'scale': scale, 'rot': r, 'crpix': list(cp), 'shape': [nx, ny]}
     return FITSWCSCorrector(w), info
